@@ -177,6 +177,67 @@ func c09R2(c *Ctx) {
 			guarded    bool
 		}
 		setters := map[*ssa.Function]*setter{}
+		// analyse: `val` reaches the state field at instruction `at` of fn (a store, or a call of a setter): if it is (a phi
+		// of) a parameter of fn, fn is a setter; guard and covered stages are read off the phi
+		analyse := func(fn *ssa.Function, at ssa.Instruction, val ssa.Value) *setter {
+			var param *ssa.Parameter
+			var phi *ssa.Phi
+			switch v := val.(type) {
+			case *ssa.Parameter:
+				param = v
+			case *ssa.Phi:
+				phi = v
+				for _, e := range v.Edges {
+					if p, ok := e.(*ssa.Parameter); ok {
+						param = p
+					}
+				}
+			}
+			if param == nil {
+				return nil
+			}
+			se := &setter{stateParam: -1, stageParam: -1, covered: map[string]bool{}}
+			for i, q := range fn.Params {
+				if q == param {
+					se.stateParam = i
+				}
+			}
+			l := stepHeld(at)
+			if phi != nil && l != nil {
+				for i, e := range phi.Edges {
+					if !isConstStr(e, "running") {
+						continue
+					}
+					pred := phi.Block().Preds[i]
+					last := pred.Instrs[len(pred.Instrs)-1]
+					g := guardedBy(last, true, isAvail)
+					if g == nil {
+						continue
+					}
+					if stepHeld(g) == l && sameSection(fn, g, at, l) {
+						se.guarded = true
+						// stage constants the guard chain compares a parameter with
+						eachInstr(fn, func(r2 instrRef) {
+							b, ok := r2.I.(*ssa.BinOp)
+							if !ok || b.Op.String() != "==" {
+								return
+							}
+							if p, ok := b.X.(*ssa.Parameter); ok {
+								if sc, ok := constString(b.Y); ok && sc != "waiting_for_input" && dominates(b, last) {
+									se.covered[sc] = true
+									for i, q := range fn.Params {
+										if q == p {
+											se.stageParam = i
+										}
+									}
+								}
+							}
+						})
+					}
+				}
+			}
+			return se
+		}
 		for _, fn := range fns {
 			eachInstr(fn, func(r instrRef) {
 				st, ok := r.I.(*ssa.Store)
@@ -187,64 +248,32 @@ func c09R2(c *Ctx) {
 				if !ok || fieldAddrVar(fa) != sf {
 					return
 				}
-				var param *ssa.Parameter
-				var phi *ssa.Phi
-				switch v := st.Val.(type) {
-				case *ssa.Parameter:
-					param = v
-				case *ssa.Phi:
-					phi = v
-					for _, e := range v.Edges {
-						if p, ok := e.(*ssa.Parameter); ok {
-							param = p
-						}
-					}
+				if se := analyse(fn, st, st.Val); se != nil {
+					setters[fn] = se
 				}
-				if param == nil {
-					return
-				}
-				se := &setter{stateParam: -1, stageParam: -1, covered: map[string]bool{}}
-				for i, q := range fn.Params {
-					if q == param {
-						se.stateParam = i
-					}
-				}
-				l := stepHeld(st)
-				if phi != nil && l != nil {
-					for i, e := range phi.Edges {
-						if !isConstStr(e, "running") {
-							continue
-						}
-						pred := phi.Block().Preds[i]
-						last := pred.Instrs[len(pred.Instrs)-1]
-						g := guardedBy(last, true, isAvail)
-						if g == nil {
-							continue
-						}
-						if stepHeld(g) == l && sameSection(fn, g, st, l) {
-							se.guarded = true
-							// stage constants the guard chain compares a parameter with
-							eachInstr(fn, func(r2 instrRef) {
-								b, ok := r2.I.(*ssa.BinOp)
-								if !ok || b.Op.String() != "==" {
-									return
-								}
-								if p, ok := b.X.(*ssa.Parameter); ok {
-									if sc, ok := constString(b.Y); ok && sc != "waiting_for_input" && dominates(b, last) {
-										se.covered[sc] = true
-										for i, q := range fn.Params {
-											if q == p {
-												se.stageParam = i
-											}
-										}
-									}
-								}
-							})
-						}
-					}
-				}
-				setters[fn] = se
 			})
+		}
+		// a function that hands (a phi of) its own parameter to a setter which does not test availability itself — a
+		// lock-held `enterStageLocked(stage, state)` — is a setter too, with the guard it applies before the call
+		for round := 0; round < 2; round++ {
+			for _, fn := range fns {
+				if _, done := setters[fn]; done {
+					continue
+				}
+				eachInstr(fn, func(r instrRef) {
+					call, ok := r.I.(*ssa.Call)
+					if !ok {
+						return
+					}
+					inner, ok := setters[call.Common().StaticCallee()]
+					if !ok || inner.guarded || inner.stateParam < 0 || inner.stateParam >= len(call.Call.Args) {
+						return
+					}
+					if se := analyse(fn, call, call.Call.Args[inner.stateParam]); se != nil {
+						setters[fn] = se
+					}
+				})
+			}
 		}
 		cnt := map[string]int{}
 		for _, fn := range fns {
@@ -283,6 +312,36 @@ func c09R2(c *Ctx) {
 						stage, _ = constString(x.Call.Args[se.stageParam])
 					}
 					okc := se.guarded && se.covered[stage]
+					if !okc && !se.guarded {
+						// a lock-held setter that only records what it is given: the caller chose the state, in the critical
+						// section in which it tested the flag — either the call is control dependent on the test, or its
+						// state argument is `running` exactly on the edge on which the flag was set
+						l := stepHeld(x)
+						if l != nil {
+							var g *ssa.If
+							if g = guardedBy(x, false, isAvail); g == nil {
+								g = guardedBy(x, true, isAvail)
+							}
+							if g != nil && stepHeld(g) == l && sameSection(fn, g, x, l) {
+								okc = true
+							}
+							if phi, isPhi := x.Call.Args[se.stateParam].(*ssa.Phi); isPhi && !okc {
+								for i, e := range phi.Edges {
+									if !isConstStr(e, "running") {
+										continue
+									}
+									pred := phi.Block().Preds[i]
+									last := pred.Instrs[len(pred.Instrs)-1]
+									if g2 := guardedBy(last, true, isAvail); g2 != nil && stepHeld(g2) == l && sameSection(fn, g2, x, l) {
+										okc = true
+									}
+									if ifi := blockIf(pred); ifi != nil && isAvail(ifi.Cond) && stepHeld(ifi) == l {
+										okc = true
+									}
+								}
+							}
+						}
+					}
 					c.verdict(okc, rule, key, c.instrPos(x), fmt.Sprintf("%s replaces `waiting` by `running` under the step lock when the input of stage %q is already available", callee.Name(), stage),
 						fmt.Sprintf("a possibly-waiting state is passed to %s for stage %q, which stores it without testing in the same critical section whether that stage's input is already available (guarded setter=%v, stage covered=%v)", callee.Name(), stage, se.guarded, se.covered[stage]))
 				}
